@@ -3629,15 +3629,13 @@ func (p *Posix) GetObject(_ context.Context, input *s3.GetObjectInput) (*s3.GetO
 	}
 
 	objSize := fi.Size()
-	startOffset, length, isValid, err := backend.ParseGetObjectRange(objSize, *input.Range)
-	if err != nil {
-		return nil, err
-	}
-
 	if fi.IsDir() {
 		// directory objects are always 0 len
 		objSize = 0
-		length = 0
+	}
+	startOffset, length, isValid, err := backend.ParseGetObjectRange(objSize, *input.Range)
+	if err != nil {
+		return nil, err
 	}
 
 	var contentRange string
